@@ -18,13 +18,9 @@ HARNESS = {"bin": "pvh_c07", "features": "default"}
 THEOREMS = [
     "PV.C07.conv_table_eq",
     "PV.C07.fstring_eq_spec_partial",
-    "PV.C07.fstring_deviates_triple_quote",
-    "PV.C07.fstring_deviates_selfdoc_whitespace",
-    "PV.C07.fstring_deviates_spec_escape",
     "PV.C07.fstring_deviates_selfdoc_in_spec",
     "PV.C07.fstring_full_fails",
     "PV.C07.merge_spec",
-    "PV.C07.merge_fails_empty_literal",
     "PV.C07.selfdoc_spec",
     "PV.C07.strict_is_restriction",
     "PV.C07.field_offsets",
@@ -45,15 +41,15 @@ TRUSTED = [
 ]
 PARTIAL = [
     "fstring_eq_spec_partial holds on the domain `Spec.split strict:=true` answers on: the reference rules minus "
-    "(a) triple-quoted strings inside a field, (b) white space other than blanks after a self-documenting '=', "
-    "(c) a backslash in the literal text that opens a format spec of a non-raw f-string, (d) a self-documenting field "
-    "nested in a format spec, (e) an expression text consisting of Unicode white space only. (a)-(d) are known "
-    "findings with kernel-checked witnesses (fstring_deviates_*, fstring_full_fails); (e) is rejected by the reference "
-    "later as an invalid expression, which the text/offset abstraction does not see",
+    "(d) a self-documenting field nested in a format spec — known finding selfdoc-in-spec-unmerged, kernel-checked "
+    "witnesses fstring_deviates_selfdoc_in_spec / fstring_full_fails —, (b') a CR among the white space after a "
+    "self-documenting '=' (no source produces it: CPython's reader and the Rust lexer turn every CR into LF), and "
+    "(e) an expression text consisting of Unicode white space only (rejected by the reference later as an invalid "
+    "expression, which the text/offset abstraction does not see). The former exclusions (a) triple-quoted strings in "
+    "fields, (b) blanks other than spaces after '=', (c) backslashes in the literal text opening a format spec, and the "
+    "empty-literal restriction of merge_spec are gone: repaired in /repo (c09f12b, 897a1b6, 40fcb23, dfa74fc)",
     "the expression inside a field is abstracted as (text, absolute offset); that the tree in the result is the parse of "
     "'(' text ')' at offset-1 is checked by the harness on every request, not proved",
-    "merge_spec: equality with the reference merge under noEmptyRun (an empty plain literal that is not adjacent to "
-    "other literal text leaves an empty constant: known finding, witness merge_fails_empty_literal)",
     "field offsets: proved are (field_offsets) every reported offset locates the field's text in the token value, and "
     "(capture_no_cr) the token value of a CR-free literal is the source slice between the quotes; with a CRLF inside the "
     "literal the offsets are one byte early per CRLF (witness field_offsets_crlf_fails, known finding). The glue between "
@@ -65,12 +61,12 @@ TECHNIQUE = ("Lean 4 model of the hand-written f-string scanner + independent re
              "them on an explicit domain, exhaustive small-scope and structured random correspondence, CPython as oracle")
 LEVEL_TEXT = ("Machine-checked Lean 4 theorem, for f-string bodies of every length and every start offset: whenever the "
               "reference scanner (CPython 3.11 rules, validated against CPython on every run) accepts a body inside the "
-              "stated domain, the model of the Rust scanner accepts it and yields, after merging adjacent literals, "
+              "stated domain (everything but a self-documenting field nested in a format spec), the model of the repaired "
+              "Rust scanner accepts it and yields, after merging adjacent literals, "
               "exactly the reference pieces: literal text, and per field the expression text, its absolute offset, the "
-              "conversion (default !r of the '=' form included) and the nested format spec. The shapes excluded from "
-              "the domain are exactly the listed known findings, each with a kernel-checked witness that the unchanged "
-              "scanner deviates there. Merging across implicitly concatenated literals equals the reference merge "
-              "unless a run of constants is empty (witnessed). The conversion-letter table is extracted from the real "
+              "conversion (default !r of the '=' form included) and the nested format spec. The one deviating shape "
+              "excluded from the domain is a listed known finding with a kernel-checked witness. Merging across "
+              "implicitly concatenated literals equals the reference merge. The conversion-letter table is extracted from the real "
               "parser on every run and re-proved by decide. The model is tied to the code by exhaustive small-scope, "
               "directed, random and real-world (stdlib) correspondence; the real code is judged by CPython's own "
               "decomposition and field positions; the text/offset abstraction is checked in the harness per request.")
@@ -341,42 +337,8 @@ def shapes(src):
         if "\r\n" in t.body:
             res.add("crlf-field-offset")
         for f in fields_in_order(t.parts):
-            if f.triple_in_expr:
-                res.add("triple-quote-in-field")
-            if f.ws_after_eq:
-                res.add("selfdoc-nonspace-whitespace")
             if f.lvl >= 1 and f.selfdoc is not None:
                 res.add("selfdoc-in-spec-unmerged")
-            if f.spec is not None and "r" not in pre:
-                # literal text of the spec BEFORE its first nested field containing a backslash
-                for kind, p, lvl in f.spec:
-                    if kind == "field":
-                        break
-                    if "\\" in p:
-                        res.add("spec-escape-not-decoded")
-    if has_f:
-        # a maximal run of constant pieces that contains a plain literal and whose text is empty
-        run_has_plain, run_text_empty = False, True
-        seq = []
-        for t in toks:
-            if t.parts is None:
-                seq.append(("plain", t.body))
-            else:
-                for kind, p, lvl in t.parts:
-                    seq.append((kind, p))
-        seq.append(("field", None))
-        for kind, p in seq:
-            if kind == "field":
-                if run_has_plain and run_text_empty:
-                    res.add("empty-literal-piece")
-                run_has_plain, run_text_empty = False, True
-            elif kind == "plain":
-                run_has_plain = True
-                if p != "":
-                    run_text_empty = False
-            else:
-                if p != "":
-                    run_text_empty = False
     if toks and toks[0].prefix == "U":
         res.add("kind-marker-uppercase-U")
     return res
@@ -588,30 +550,6 @@ def _ranges(p):
                 yield from _ranges(x[3])
 
 
-def _unescape_spec_prefix(p, raw=False):
-    """decode backslash escapes in the literal that opens a spec (the reference decodes them)"""
-    def dec(cps):
-        if cps == "-":
-            return cps
-        s = "".join(chr(int(c)) for c in cps.split(","))
-        try:
-            v = ast.literal_eval('"""' + s.replace('"', '\\"') + '"""') if "\\" in s else s
-        except Exception:
-            return cps
-        return _cps(v)
-    out = []
-    for x in p:
-        if x[0] == "F" and x[3]:
-            sp = list(x[3])
-            if sp and sp[0][0] == "L":
-                sp[0] = ("L", sp[0][1], dec(sp[0][2]))
-            sp = [y if y[0] == "L" else ("F", y[1], y[2], y[3]) for y in sp]
-            out.append(("F", x[1], x[2], sp))
-        else:
-            out.append(x)
-    return out
-
-
 def oracle(req, out):
     """Judge the implementation's answer against CPython's decomposition.  Failure strings start with a
     bracketed tag when the ONLY discrepancy has the shape of a listed known finding."""
@@ -626,10 +564,6 @@ def oracle(req, out):
         return None                                 # outside the quantifier
     sh = shapes(src)
     if out.startswith("err "):
-        if "triple-quote-in-field" in sh and out.startswith("err F:UnterminatedString"):
-            return "[triple-quote-in-field] rejected: " + out
-        if "selfdoc-nonspace-whitespace" in sh and out.startswith("err F:UnclosedLbrace"):
-            return "[selfdoc-nonspace-whitespace] rejected: " + out
         return "rejected an f-string the reference accepts: " + out
     try:
         got_full = parse_out(out)
@@ -670,21 +604,11 @@ def oracle(req, out):
         return tie_fail
     cand = got
     tags = []
-    if "empty-literal-piece" in sh:
-        c2 = [x for x in cand if not (x[0] == "L" and x[2] == "-")]
-        if c2 != cand:
-            cand = c2
-            tags.append("empty-literal-piece")
     if "selfdoc-in-spec-unmerged" in sh:
         c2 = [x if x[0] == "L" else ("F", x[1], x[2], _normalize(x[3]) if x[3] is not None else None) for x in cand]
         if c2 != cand:
             cand = c2
             tags.append("selfdoc-in-spec-unmerged")
-    if "spec-escape-not-decoded" in sh:
-        c2 = _unescape_spec_prefix(cand)
-        if c2 != cand:
-            cand = c2
-            tags.append("spec-escape-not-decoded")
     if "kind-marker-uppercase-U" in sh:
         def unmark(p):
             return [("L", "-", x[2]) if x[0] == "L" else x for x in p]
@@ -764,7 +688,7 @@ def spec_validation(ctx):
     if rc != 0:
         return [("spec validation (driver build)", False, out[-300:])]
     drv = core.driver_path(DRIVER)
-    srcs = CORPUS + gen_directed() + gen_random(ctx, 1500 if ctx.quick else 20000) + [s for _, s in KNOWN_PROBES]
+    srcs = CORPUS + REPAIRED + gen_directed() + gen_random(ctx, 1500 if ctx.quick else 20000) + [s for _, s in KNOWN_PROBES]
     reqs = [r for r in (req_of(s) for s in srcs) if r]
     m = core.run_lines([drv], reqs, jobs=4)
     sp = core.run_lines([drv], ["spec" + r[2:] for r in reqs], jobs=4)
@@ -784,7 +708,7 @@ def spec_validation(ctx):
             first = first or f"spec != CPython on {src!r}: {so[:120]}"
         if do != "reject":
             inside += 1
-            if do != mo and "empty-literal-piece" not in shapes(src):
+            if do != mo:
                 bad2 += 1
                 first = first or f"strict spec != model on {src!r}: {do[:100]} / {mo[:100]}"
     return [(f"spec validation: Lean reference scanner = CPython on {len(reqs)} sources", bad1 == 0, first),
@@ -850,19 +774,20 @@ CORPUS = [
 ]
 
 KNOWN_PROBES = [
-    ("triple-quote-in-field", "f'''{\"\"\"a\"b\"\"\"}'''"),
-    ("triple-quote-in-field", "f\"{'''a'b'''}\""),
     ("crlf-field-offset", "f'''\r\n{x}'''"),
     ("crlf-field-offset", "f'''a\r\nb\r\n{x}{y!r:>{w}}'''"),
-    ("selfdoc-nonspace-whitespace", "f'{x=\t}'"),
-    ("selfdoc-nonspace-whitespace", "f'''{x=\n}'''"),
-    ("spec-escape-not-decoded", "f'{x:\\x3e5}'"),
-    ("spec-escape-not-decoded", "f'{x:\\n}'"),
     ("selfdoc-in-spec-unmerged", "f'{x:{y=}}'"),
     ("selfdoc-in-spec-unmerged", "f'{x:a{y=}b}'"),
-    ("empty-literal-piece", "'' f''"),
-    ("empty-literal-piece", "'' f'{x}'"),
-    ("empty-literal-piece", "f'{x}' ''"),
+]
+
+# the probes of the four findings repaired in /repo (c09f12b, 897a1b6, 40fcb23, dfa74fc): ordinary corpus now
+REPAIRED = [
+    "f'''{\"\"\"a\"b\"\"\"}'''", "f\"{'''a'b'''}\"", "f\"{'''a'''}\"", "f\"{''''''}\"", "f\"{'''a''''b'}\"",
+    "f\"{'''a}b{c'''!r:>{w}}\"", "f'''{\"\"\"\n\"\"\" + x}'''",
+    "f'{x=\t}'", "f'''{x=\n}'''", "f'{x= \t !r}'", "f'{x=\x0c:>5}'", "f'{ x =\x0b}'", "f'''{x=\r}'''",
+    "f'{x:\\x3e5}'", "f'{x:\\n}'", "f'{x:\\{y}}'", "f'{x:\\N{BULLET}}'", "f'{x:a\\tb{y}\\x41}'", "f'{x:\\\\}'", "f'{x:\\q}'",
+    "f'{x:\\'}'", "rf'{x:\\n}'", "f'{x:{y:\\x41}}'",
+    "'' f''", "'' f'{x}'", "f'{x}' ''", "'a' '' f'{x}' '' ''", "u'' f'{x}'", "f'{x=}' ''", "'' f'{x}' '' f'{y}' ''", "r'' f''",
 ]
 
 EXPRS = [
@@ -873,10 +798,11 @@ EXPRS = [
     " {1, 2} ", " {k: v for k, v in d} ", "3.14", "1_000", "0x1f", "1e10", "1j", "'s'", '"s"', "'a' 'b'", "'a:b'", "'a!b'",
     "'a}b'", "'a{b'", "'='", "'a=b'", "d['k:!}']", 'd["{"]', "x.y(z)[0].w", "yield", "await x", "a @ b", "a ** b", "a // b",
     "a is not b", "a not in b", "a < b < c", "x if y else z if w else v", "f(g(h(1)))", "((x))", "(x)", "[(x)]", "x[(a, b)]",
+    "'''s'''", '"""s"""', "'''a\"b'''", "'''a}b{c'''", "'''a''' 'b'", "d['''k''']", "''''''",
     "x  ", "  x", " x ", "a is b", "a in b", "True", "None", "...", "b'x'", "a<=b<=c", "a>=b==c", "a != b != c", "f'{y}'"[:0] + "x.__class__",
 ]
 
-SPECS = ["", ">10", "<5", "^", ".2f", "x", "=+10", "!r"[:0] + "0", " ", "a b", "#x", ",", "_", "%Y-%m-%d", "é", "10.3e", "=",
+SPECS = ["\\x3e5", "\\n", "\\t{w}", "a\\x41{w}\\x42", "\\\\", "\\q", "\\N{BULLET}", "\\{w}", "\\u00e9>{w}", "", ">10", "<5", "^", ".2f", "x", "=+10", "!r"[:0] + "0", " ", "a b", "#x", ",", "_", "%Y-%m-%d", "é", "10.3e", "=",
          ">>", "<<", "!", "!!", "a:b", "::", "{w}", "{w}.{p}", ">{w}", "{w}>", "0{w}d", "{w!r}", "{w:>5}", "{w!s:x}", "{a}{b}{c}",
          "{a[0]}", "{(w)}", "{f(x=1)}", "{'>'}{10}"]
 
@@ -908,7 +834,7 @@ def gen_body(rng, q, raw, allow_newline):
             e = rng.choice(["", " ", "  "]) + e + rng.choice(["", " ", "  "])
         fld = "{" + e
         if rng.random() < 0.2:
-            fld += rng.choice(["=", " =", "= ", " = ", "=  "])
+            fld += rng.choice(["=", " =", "= ", " = ", "=  ", "=\t", "= \t ", "=\x0c", "=\n" if allow_newline else "=\x0b"])
         if rng.random() < 0.3:
             fld += "!" + rng.choice("sra")
         if rng.random() < 0.4:
@@ -971,7 +897,7 @@ def gen_directed():
     """every expression x every conversion/spec/self-documenting suffix, in two quote styles"""
     out = []
     for e in EXPRS:
-        for suffix in ["", "!r", "!s:>5", ":{w}", "=", " = ", "=!a", "=:>{w}", ":"]:
+        for suffix in ["", "!r", "!s:>5", ":{w}", "=", " = ", "=!a", "=:>{w}", ":", "=\t", ":\\x3e{w}"]:
             for pre, q in (("f", "'"), ("f", '"""'), ("rf", '"')):
                 ee = _esc_other_quote(e, q)
                 if q[0] in ee and len(q) == 1:
@@ -1032,7 +958,7 @@ def stdlib_fstrings(ctx, limit):
 
 def streams(ctx):
     out = []
-    out.append(Stream("corpus", reqs_of(CORPUS), kind="corpus"))
+    out.append(Stream("corpus", reqs_of(CORPUS + REPAIRED), kind="corpus"))
     ex = reqs_of(gen_exhaustive(ctx))
     out.append(Stream("bodies-exhaustive-small", ex, kind="exhaustive", exhaustive=True,
                       note="every body up to length 5/6 over {x { } ! : = r blank ' < (} in f\"…\" that CPython accepts"))
@@ -1081,7 +1007,7 @@ def self_check():
     """spec validation: the reference scanner of this file agrees with CPython on accept/reject and on the
     expression of every field (run by hand / by the thorough tier)"""
     bad = []
-    for src in CORPUS + gen_directed() + [s for _, s in KNOWN_PROBES]:
+    for src in CORPUS + REPAIRED + gen_directed() + [s for _, s in KNOWN_PROBES]:
         cl = claims_of(src)
         py = py_pieces(src)
         if (cl is None) != (py is None):
